@@ -252,6 +252,18 @@ def _expr(draw, model, env, depth):
             k, ft = draw(st.sampled_from(fields))
             return ["fld", obj, k, draw(st.sampled_from(["attr", "key"]))], ft
         return obj, t
+    if c == 13 and depth >= 2:
+        # a variable used AGAIN after a nested operator whose lambda re-uses its name (scope bookkeeping must not leak)
+        cands = [(n, t, m, r) for n, t in env for m, r in all_methods(model, t) if elem_of(r) is not None]
+        if cands:
+            n, t, m, r = draw(st.sampled_from(cands))
+            e2 = [(nn, tt) for nn, tt in env if nn != n] + [(n, elem_of(r))]
+            body, bt = draw(_expr(model, e2, depth - 2))
+            first = ["count", ["sel", ["call", ["var", n], m], n, body]]
+            later_m = [(mm, rr) for mm, rr in all_methods(model, t) if rr != ["any"]]
+            if later_m:
+                mm, rr = draw(st.sampled_from(later_m))
+                return ["fld", ["dict", [["k0", first], ["k1", ["call", ["var", n], mm]]]], "k1", draw(st.sampled_from(["attr", "key"]))], rr
     n, t = draw(st.sampled_from(env))
     return ["var", n], t
 
